@@ -46,7 +46,7 @@ pub struct C18 { seed: u64, short: Vec<String>, n_canon: u64, n_mut: u64, n_rand
 
 impl C18 {
     pub fn new(tier: Tier, seed: u64) -> C18 {
-        let alpha: Vec<char> = "()[],;.|\\$\"a".chars().collect();
+        let alpha: Vec<char> = "()[],;.|\\$\"a-+".chars().collect();
         let short = all_strings(&alpha, 3);
         let (c, m, r) = if tier == Tier::Quick { (30_000, 80_000, 40_000) } else { (400_000, 1_500_000, 600_000) };
         C18 { seed, short, n_canon: c, n_mut: m, n_rand: r, n_nest: if tier == Tier::Quick { 6_000 } else { 60_000 } }
@@ -127,10 +127,10 @@ impl C18 {
 impl Workload for C18 {
     fn total(&self) -> u64 { self.short.len() as u64 + DEEP.len() as u64 + self.n_nest + self.n_canon + self.n_mut + self.n_rand }
     fn rule(&self) -> String {
-        format!("each input string is given to all {} parser entry points under catch_unwind: all {} strings of length <= 3 over the 12-character syntax alphabet, 8 long inputs of 10-400 kilobytes (deep nesting of brackets, parentheses, not(...), complex terms; flat lists, disjunctions, one huge atom) parsed on a thread with the default 8 MB main-thread stack, {} deeply nested texts (each of 8 opener kinds - parentheses, brackets, complex terms, not(...), list and argument prefixes - at every depth that fits into 160 characters, then random mixtures of kinds, cores and unbalanced variants), {} canonical texts (terms, goals, rules, argument lists), {} mutations of such texts (1-4 edits), {} random strings over the syntax alphabet up to 160 characters; non-trivial when at least one entry point returned Ok or the input has >= 2 syntax characters; distinct by input string",
+        format!("each input string is given to all {} parser entry points under catch_unwind: all {} strings of length <= 3 over the 14-character syntax alphabet, 8 long inputs of 10-400 kilobytes (deep nesting of brackets, parentheses, not(...), complex terms; flat lists, disjunctions, one huge atom) parsed on a thread with the default 8 MB main-thread stack, {} deeply nested texts (each of 8 opener kinds - parentheses, brackets, complex terms, not(...), list and argument prefixes - at every depth that fits into 160 characters, then random mixtures of kinds, cores and unbalanced variants), {} canonical texts (terms, goals, rules, argument lists), {} mutations of such texts (1-4 edits), {} random strings over the syntax alphabet up to 160 characters; non-trivial when at least one entry point returned Ok or the input has >= 2 syntax characters; distinct by input string",
                 ENTRY.len(), self.short.len(), self.n_nest, self.n_canon, self.n_mut, self.n_rand)
     }
-    fn exhaustive_part(&self) -> Option<String> { Some(format!("all {} strings of length <= 3 over ()[],;.|\\$\"a", self.short.len())) }
+    fn exhaustive_part(&self) -> Option<String> { Some(format!("all {} strings of length <= 3 over ()[],;.|\\$\"a-+", self.short.len())) }
     fn describe(&mut self, idx: u64) -> String {
         if idx < DEEP.len() as u64 { return json::obj(&[("input_spec", json::esc(&deep_spec(idx as usize))), ("kind", json::esc("long"))]); }
         let (s, kind) = self.pick(idx);
